@@ -8,9 +8,9 @@ use xeh::prelude::*;
 pub const DEF: PropDef = PropDef {
     id: "C14",
     rule: "programs = control-flow backbone + snippets (builders, foreach, let, locals, late words, cursor reads, recursion, meta blocks) + stack flooders (unbox, loops pushing, recursion, nested builders), heap growers (var, let, API defvar) and non-terminating loops, on an interpreter that already holds a prelude. \
-An unlimited twin is compiled and single-stepped, recording after every step the data-stack length, heap length and instruction meter; this gives, independently of the limit checks, the exact need of the program. A limit (N, S or H) is then drawn around that need (need, need+-1, 0, 1, far above) and the program is driven by eval, compile+run and compile+step. \
+An unlimited twin is compiled and single-stepped, recording after every step the data-stack length, heap length and instruction meter; this gives, independently of the limit checks, the exact need of the program. Reverse recording is on in 1 case of 3. A limit (N, S or H) is then drawn around that need (need, need+-1, 0, 1, far above) and the program is driven by eval, compile+run and compile+step. \
 Oracle: hard bound after every step (stack <= S, heap <= H, successful steps since the limit was set <= N); exact boundary - the limited run succeeds with the twin's final state iff the limit covers the need, otherwise it fails with the matching limit error, in the stepped run exactly at the step the twin predicts and with the machine state the twin had before that step; \
-recoverable - after an instruction stop, raising the limit and run() finishes with exactly the twin's final state; after a stack/heap stop, raising the limit and evaluating fresh probes (definition, variable, builder, meta block, arithmetic) gives their normal results. Limits are also changed between evaluations on one interpreter. \
+while an instruction limit is exhausted and not raised, further submissions and resume calls execute nothing; recoverable - after an instruction stop, raising the limit and run() finishes with exactly the twin's final state; after a stack/heap stop, raising the limit and evaluating fresh probes (definition, variable, builder, meta block, arithmetic) gives their normal results. Limits are also changed between evaluations on one interpreter. \
 Non-trivial = the limit lies within +-1 of the need, or is hit inside a call / loop / builder / meta block; distinct = hash of program, limit kind and value",
     assumptions: &[
         "a late word's first execution is metered twice (resolve + re-dispatch); the prediction uses the twin's own meter, so only 'at most N' is claimed for the number of executed steps",
@@ -28,7 +28,7 @@ Non-trivial = the limit lies within +-1 of the need, or is hit inside a call / l
 
 const CAP: usize = 4000;
 
-const FLOODERS: [&str; 8] = [
+const FLOODERS: [&str; 11] = [
     "[ 1 2 3 4 5 6 7 ] unbox drop drop drop drop drop drop drop",
     "6 0 do I loop 6 collect drop",
     ": fl dup 0 > if dup 1 - fl then ; 5 fl drop drop drop drop drop drop",
@@ -37,6 +37,9 @@ const FLOODERS: [&str; 8] = [
     "1 2 3 4 5 6 7 8 + + + + + + + drop",
     "[ 3 0 do I I I loop ] length drop",
     "3 0 do 3 0 do I J loop loop 18 collect drop",
+    "1 2 over over over over over over drop drop drop drop drop drop drop drop",
+    "7 dup dup dup dup dup drop drop drop drop drop drop",
+    "1 2 3 rot over swap over drop drop drop drop drop",
 ];
 
 const HEAP: [&str; 5] = ["1 var hv_a", "1 var hv_a 2 var hv_b 3 var hv_c", "[ 1 2 3 ] let [ la lb lc ]", "{ 5 \"k\" } let { \"k\" lk }", "1 var hv_a hv_a 1 + ! hv_a"];
@@ -202,6 +205,12 @@ pub fn case(ch: &mut Choices, ctx: &CaseCtx) -> CaseOut {
     let mut base = xs::fresh();
     base.intercept_output(true).unwrap();
     base.defword("vprobe", vprobe).unwrap();
+    // configuration: reverse recording on (the limits must hold whatever the primitives log)
+    let recording = ch.chance(1, 3);
+    base.set_recording_enabled(recording);
+    if recording {
+        feats.push("recording-on");
+    }
     if ch.chance(1, 2) {
         let pre = ["1 2 3", ": pre_w 4 ; 9 var pre_v", "[ 1 2 ] 5"][ch.below(3)];
         // an earlier evaluation under other limits: limits are changed between evaluations
@@ -404,6 +413,45 @@ pub fn case(ch: &mut Choices, ctx: &CaseCtx) -> CaseOut {
                         break;
                     }
                 }
+                // ---- the limit stays hard while it is not raised -----------------------------------
+                if which == Lim::Insn {
+                    // on a copy (a new submission abandons the stopped program): nothing more may execute
+                    let mut c = xs.clone();
+                    let (s_before, _, m_before) = c.verif_counts();
+                    for probe in ["1", "2 3 +", "depth"] {
+                        match guard(|| c.eval(probe)) {
+                            Ok(r) => {
+                                let (s_now, _, m_now) = c.verif_counts();
+                                if xs::kind_res(&r) != Kind::InsnLimit || s_now != s_before || m_now > limit.max(m_before) {
+                                    fail(&mut out, dname, "instructions executed after the limit was reached and not raised", format!("`{}` gave {} (stack {} -> {}, meter {} -> {}, limit {})", probe, xs::render_res(&r), s_before, s_now, m_before, m_now, limit));
+                                    break;
+                                }
+                            }
+                            Err(pm) => {
+                                fail(&mut out, dname, &format!("panic: {}", pm), "probe after the limit".into());
+                                break;
+                            }
+                        }
+                    }
+                    if out.fail.is_some() {
+                        break;
+                    }
+                    let mut c2 = xs.clone();
+                    for _ in 0..3 {
+                        let r = guard(|| if drive == 2 { c2.next() } else { c2.run() });
+                        let m_now = c2.verif_counts().2;
+                        let still_running = c2.is_running();
+                        if let Ok(r) = &r {
+                            if still_running && (xs::kind_res(r) != Kind::InsnLimit || m_now > limit) {
+                                fail(&mut out, dname, "instructions executed after the limit was reached and not raised", format!("resuming without raising gave {} (meter {}, limit {})", xs::render_res(r), m_now, limit));
+                                break;
+                            }
+                        }
+                    }
+                    if out.fail.is_some() {
+                        break;
+                    }
+                }
                 // ---- recoverability ----------------------------------------------------------
                 if which == Lim::Insn && drive >= 1 && k >= 2 && twin.finished && !has_meta {
                     // the stop happens before the instruction mutates anything: resume must complete the program
@@ -476,7 +524,7 @@ pub fn case(ch: &mut Choices, ctx: &CaseCtx) -> CaseOut {
         out.class("meta-block");
     }
     for f in &feats {
-        if ["stack-flooder", "heap-grower", "non-terminating", "limits-changed-between-evaluations"].contains(f) {
+        if ["stack-flooder", "heap-grower", "non-terminating", "limits-changed-between-evaluations", "recording-on", "over-flood"].contains(f) {
             out.class(f);
         }
     }
